@@ -433,6 +433,9 @@ class TT():
         Returns:
             torchtt.TT: the result.
         """
+        if isinstance(other, np.complexfloating):
+            # torch casts numpy complex64 scalars to real (discarding the imaginary part): use the python value
+            other = complex(other)
 
         if (np.isscalar(other) and not isinstance(other, str)) or (tn.is_tensor(other) and tn.numel(other) == 1):
             # the second term is a scalar
@@ -567,6 +570,9 @@ class TT():
         Returns:
             torchtt.TT: the result.
         """
+        if isinstance(other, np.complexfloating):
+            # torch casts numpy complex64 scalars to real (discarding the imaginary part): use the python value
+            other = complex(other)
         if (np.isscalar(other) and not isinstance(other, str)) or (tn.is_tensor(other) and tn.numel(other) == 1):
             # the second term is a scalar
             cores = []
@@ -715,6 +721,9 @@ class TT():
         Returns:
             torchtt.TT: the result.
         """
+        if isinstance(other, np.complexfloating):
+            # torch casts numpy complex64 scalars to real (discarding the imaginary part): use the python value
+            other = complex(other)
 
         # elementwise multiplication
         if isinstance(other, TT):
@@ -936,6 +945,9 @@ class TT():
         Returns:
             torchtt.TT: the result.
         """
+        if isinstance(other, np.complexfloating):
+            # torch casts numpy complex64 scalars to real (discarding the imaginary part): use the python value
+            other = complex(other)
         if (np.isscalar(other) and not isinstance(other, str)) or (tn.is_tensor(other) and tn.numel(other) == 1):
             # divide by a scalar
             cores_new = self.cores.copy()
